@@ -927,7 +927,7 @@ def plant(rng, u, kind):
                 st = u.structs[i]
                 other = {"liba": "libb", "libb": "liba"}[st["pkg"]]
                 hs = [c for c in hosts if pkg_level(c["pkg"]) >= pkg_level(other) and c is not u.items[n]]
-                if any(o["name"] == st["name"] and o["pkg"] == other for o in u.structs) or not hs:
+                if any(o["name"] == st["name"] and o["pkg"] == other for uu in u.prog.units for o in uu.structs) or not hs:
                     continue
                 j = len(u.structs)
                 u.structs.append({"name": st["name"], "pkg": other, "fields": [], "extra": [], "ptrrecv": False})
